@@ -233,9 +233,11 @@ def visitor_methods(E, self_suffix):
     return out
 
 
-def ser_calls(h):
-    return {last_seg(norm(c.get("callee", ""))) for c in exprs(h["body"], ("Call", "MethodCall"))
-            if norm(c.get("callee", "")).startswith("serde_core::ser::Serializer::serialize_")}
+def ser_calls(h, E=None):
+    """the Serializer::serialize_* shapes a serializer emits, itself or through private helpers of the same file"""
+    nodes = exprs(h["body"], ("Call", "MethodCall")) if E is None else [x.node for x in sem.Sem(E, h).sites()]
+    return {last_seg(norm(c.get("callee", ""))) for c in nodes
+            if c.get("k") in ("Call", "MethodCall") and norm(c.get("callee", "")).startswith("serde_core::ser::Serializer::serialize_")}
 
 
 def rule_shapes(F, R, rule="R14-shapes"):
@@ -255,7 +257,7 @@ def rule_shapes(F, R, rule="R14-shapes"):
         if not h:
             R.cannot(rule, ser, "anchor not found")
             continue
-        emitted = ser_calls(h)
+        emitted = ser_calls(h, E)
         methods = visitor_methods(E, vis)
         if not methods:
             R.cannot(rule, vis, "visitor impl not found")
@@ -272,7 +274,7 @@ def rule_shapes(F, R, rule="R14-shapes"):
     # LhsValue bytes: str or bytes, same as Bytes
     hl = E.hir("<types::LhsValue as serde_core::ser::Serialize>::serialize")
     if hl:
-        em = ser_calls(hl)
+        em = ser_calls(hl, E)
         R.check(em <= {"serialize_str", "serialize_bytes"}, rule, norm(hl["path"]), "LhsValue::Bytes emits str|bytes only",
                 str(sorted(em)), hl["span"])
     # deserializer hints admit every emitted shape
@@ -317,11 +319,27 @@ def rule_lenhint(F, R, rule="R14-lenhint"):
     the object/array at once for a hint of Some(0), so a later entry lands after the closing brace"""
     n = 0
     for C in (F.engine, F.ffi):
+        # hand-written serializers: the Serialize impls that are not derived, and any other function of the crate that opens
+        # a map / sequence itself (a private helper such an impl was split into)
+        cands = []
+        derived = set()
         for imp in C.impls:
-            if imp.get("trait") != "serde_core::ser::Serialize" or imp["derived"] or imp.get("exp"):
+            if imp.get("trait") != "serde_core::ser::Serialize":
                 continue
             for it in imp["items"]:
-                hb = C.hir_by_dp.get(it["dp"])
+                if imp["derived"] or imp.get("exp"):
+                    derived.add(it["dp"])
+                else:
+                    cands.append(it["dp"])
+        for hb_ in C.hir_list:
+            if "body" in hb_ and hb_["dp"] not in derived and hb_["dp"] not in cands and "::tests::" not in norm(hb_["path"]) and \
+                    "{closure" not in hb_["path"] and \
+                    any(norm(c_.get("callee", "")).endswith(("Serializer::serialize_map", "Serializer::serialize_seq")) and not c_.get("x")
+                        for c_ in exprs(hb_["body"], ("Call", "MethodCall"), into_closures=False)):
+                cands.append(hb_["dp"])
+        for dp_ in cands:
+            for _once in (0,):
+                hb = C.hir_by_dp.get(dp_)
                 if not hb or "body" not in hb:
                     continue
                 fn = norm(hb["path"])
